@@ -535,12 +535,35 @@ class SymInt:
         if z3.is_bv_value(s):
             return s.as_signed_long()
         if self.hi - self.lo + 1 > limit:
+            self.tighten()
+        if self.hi - self.lo + 1 > limit:
             raise Unsupported("cannot concretise integer with %d candidates" % (self.hi - self.lo + 1))
         for v in range(self.lo, self.hi):
             if c.decide(self.t == v):
                 return v
         c.assume(self.t == self.hi)
         return self.hi
+
+    def tighten(self):
+        """semantic min/max under the current path condition (binary search with the solver)"""
+        c = ctx()
+        lo, hi = self.lo, self.hi
+        a, b = lo, hi  # min in [a,b]
+        while a < b:
+            mid = (a + b) // 2
+            if c._check(self.t <= mid) == z3.unsat:
+                a = mid + 1
+            else:
+                b = mid
+        lo = a
+        a, b = lo, hi
+        while a < b:
+            mid = (a + b + 1) // 2
+            if c._check(self.t >= mid) == z3.unsat:
+                b = mid - 1
+            else:
+                a = mid
+        self.lo, self.hi = lo, a
 
     def __index__(self):
         return self.concretize()
